@@ -3,10 +3,13 @@ pub mod c01;
 pub mod c02;
 pub mod c09;
 pub mod c10;
+pub mod c11;
 pub mod c12;
 pub mod c13;
 pub mod c14;
 pub mod c15;
+pub mod c19;
+pub mod c20;
 
 use crate::report::{Ctx, Report};
 use serde_json::Value;
@@ -17,10 +20,13 @@ pub fn run(ctx: &Ctx) -> Option<Report> {
         "C02" => c02::run(ctx),
         "C09" => c09::run(ctx),
         "C10" => c10::run(ctx),
+        "C11" => c11::run(ctx),
         "C12" => c12::run(ctx),
         "C13" => c13::run(ctx),
         "C14" => c14::run(ctx),
         "C15" => c15::run(ctx),
+        "C19" => c19::run(ctx),
+        "C20" => c20::run(ctx),
         _ => return None,
     })
 }
@@ -31,10 +37,13 @@ pub fn replay(ctx: &Ctx, v: &Value) -> Option<bool> {
         "C02" => c02::replay(ctx, v),
         "C09" => c09::replay(ctx, v),
         "C10" => c10::replay(ctx, v),
+        "C11" => c11::replay(ctx, v),
         "C12" => c12::replay(ctx, v),
         "C13" => c13::replay(ctx, v),
         "C14" => c14::replay(ctx, v),
         "C15" => c15::replay(ctx, v),
+        "C19" => c19::replay(ctx, v),
+        "C20" => c20::replay(ctx, v),
         _ => return None,
     })
 }
